@@ -39,9 +39,10 @@ func (f *fakeIn) ReceiveChannel() <-chan []byte { return f.ch }
 func msg(src, i int) midi.Event { return midi.Event{0x90 | byte(src), byte(10*src + i), 64} }
 
 type scenario struct {
-	dBound int // added to the tier's preemption bound (big scenarios run one lower in the quick tier)
-	name string
-	run  func()
+	dBound      int  // added to the tier's preemption bound (big scenarios run one lower in the quick tier)
+	choicesOnly bool // every operation history on the default schedule only
+	name        string
+	run         func()
 	// oracle on the ordered observation list
 	check func(x *vsched.Execution) []vsched.Violation
 }
@@ -381,6 +382,128 @@ func fanScenario(c fanCfg) scenario {
 	}
 }
 
+// idsScenario: EVERY history of attach / detach operations (which device is detached is a free choice) up to a
+// depth, with at most maxLive devices attached at a time; after every operation one message enters and the
+// system is left to quiesce. Oracle: each message reaches exactly the devices attached at that time, exactly
+// once; a detached device's stream ends; no operation fails.
+func idsScenario(maxLive, depth int) scenario {
+	name := fmt.Sprintf("F-ids every attach/detach history, <=%d attached, depth %d", maxLive, depth)
+	return scenario{
+		name: name,
+		run: func() {
+			in := make(chan midi.Event, 1)
+			vsched.Name(in, "midiEventsIn")
+			fan := utils.NewDynamicFanOut[midi.Event](in)
+			type dev struct {
+				n  int
+				id int64
+			}
+			var live []dev
+			next := 0
+			vsched.Go("controller", func() {
+				for step := 0; step < depth; step++ {
+					nOps := len(live)
+					if len(live) < maxLive {
+						nOps++
+					}
+					c := vsched.Choose(nOps, "operation")
+					if c < len(live) {
+						d := live[c]
+						live = append(append([]dev{}, live[:c]...), live[c+1:]...)
+						vsched.Observe("detach", d.n)
+						if err := fan.DespawnOutput(d.id); err != nil {
+							vsched.Observe("detach-error", fmt.Sprintf("device %d: %v", d.n, err))
+						}
+					} else {
+						id, ch, err := fan.SpawnOutput()
+						if err != nil {
+							vsched.Observe("attach-error", err.Error())
+							break
+						}
+						n := next
+						next++
+						vsched.Name(ch, fmt.Sprintf("out%d", n))
+						live = append(live, dev{n, id})
+						vsched.Observe("attach", n)
+						vsched.Go(fmt.Sprintf("reader%d", n), func() {
+							vsched.Daemon()
+							for {
+								m, ok := vsched.In[midi.Event](ch).Recv2()
+								if !ok {
+									vsched.Observe("closed", n)
+									return
+								}
+								vsched.Observe("got", fmt.Sprintf("%d/%d", n, int(m[1])))
+							}
+						})
+					}
+					var ls []string
+					for _, d := range live {
+						ls = append(ls, fmt.Sprint(d.n))
+					}
+					vsched.Observe("feed", fmt.Sprintf("%d:%s", step, strings.Join(ls, ",")))
+					vsched.Out[midi.Event](in).Send(midi.Event{0x90, byte(step), 64})
+					vsched.Quiesce()
+				}
+				vsched.Final()
+				vsched.CloseBidi(in)
+			})
+		},
+		check: func(x *vsched.Execution) []vsched.Violation {
+			vs := common(x)
+			if len(vs) > 0 {
+				return vs
+			}
+			got := map[string]int{}
+			var hist []string
+			for _, o := range x.Obs {
+				switch o.Kind {
+				case "got":
+					got[o.Val.(string)]++
+				case "attach", "detach":
+					hist = append(hist, fmt.Sprintf("%s %v", o.Kind, o.Val))
+				case "detach-error", "attach-error":
+					return []vsched.Violation{{"attach-detach-error", o.Kind, fmt.Sprintf("after %v: %s: %v", hist, o.Kind, o.Val)}}
+				}
+			}
+			closed := map[int]bool{}
+			for _, o := range x.Obs {
+				if o.Kind == "closed" {
+					closed[o.Val.(int)] = true
+				}
+			}
+			want := map[string]bool{}
+			for _, o := range x.Obs {
+				if o.Kind != "feed" {
+					continue
+				}
+				parts := strings.SplitN(o.Val.(string), ":", 2)
+				for _, d := range strings.Split(parts[1], ",") {
+					if d != "" {
+						want[d+"/"+parts[0]] = true
+					}
+				}
+			}
+			for w := range want {
+				if got[w] != 1 {
+					return []vsched.Violation{{"connected-device-misses-message", "ids", fmt.Sprintf("history %v: device/message %s was delivered %d times (the device was attached when the message entered); observations %v", hist, w, got[w], obsList(x))}}
+				}
+			}
+			for g, n := range got {
+				if !want[g] {
+					return []vsched.Violation{{"message-delivered-to-detached-device", "ids", fmt.Sprintf("history %v: device/message %s delivered %d times although the device was not attached; observations %v", hist, g, n, obsList(x))}}
+				}
+			}
+			for _, o := range x.Obs {
+				if o.Kind == "detach" && !closed[o.Val.(int)] {
+					return []vsched.Violation{{"detached-stream-never-ends", "ids", fmt.Sprintf("history %v: device %d was detached but its stream was never closed", hist, o.Val)}}
+				}
+			}
+			return vs
+		},
+	}
+}
+
 func scenarios(tier string) []scenario {
 	lower := func(sc scenario) scenario {
 		if tier != "thorough" {
@@ -403,6 +526,12 @@ func scenarios(tier string) []scenario {
 		sc := fanScenario(fanCfg{name: "F-direct cap=1 msgs=3 A-reads (bound 0)", cap_: 1, nMsg: 3, aReads: true, cycles: 1})
 		sc.dBound = -2
 		s = append(s, sc)
+		ids := idsScenario(3, 6)
+		ids.choicesOnly = true
+		s = append(s, ids)
+		ids = idsScenario(3, 3)
+		ids.dBound = -2
+		s = append(s, ids)
 	}
 	if tier == "thorough" {
 		s = append(s,
@@ -418,6 +547,12 @@ func scenarios(tier string) []scenario {
 			fanScenario(fanCfg{name: "F-churn cap=1 msgs=3 two attachments", cap_: 1, nMsg: 3, aReads: true, cycles: 2}),
 			fanScenario(fanCfg{name: "F-churn cap=0 msgs=4 two attachments", cap_: 0, nMsg: 4, aReads: true, cycles: 2}),
 		)
+		ids := idsScenario(4, 8)
+		ids.choicesOnly = true
+		s = append(s, ids)
+		ids = idsScenario(3, 4)
+		ids.dBound = -2
+		s = append(s, ids)
 	}
 	return s
 }
@@ -484,7 +619,7 @@ func main() {
 		if b < 0 {
 			b = 0
 		}
-		rep := vsched.Explore(sc.run, vsched.ExploreOpts{Bound: b, Shard: *shard, NShards: *nshards, Deadline: time.Now().Add(*budget), Prune: os.Getenv("NOPRUNE") == "",
+		rep := vsched.Explore(sc.run, vsched.ExploreOpts{Bound: b, Shard: *shard, NShards: *nshards, Deadline: time.Now().Add(*budget), Prune: os.Getenv("NOPRUNE") == "", ChoicesOnly: sc.choicesOnly,
 			Check: sc.check,
 			Outcome: func(x *vsched.Execution) string {
 				o := strings.Join(obsList(x), ";")
@@ -505,7 +640,11 @@ func main() {
 			res.Note(fmt.Sprintf("scenario %q: time budget reached in shard %d after %d executions (preemption bound %d not completed)", sc.name, *shard, rep.Executions, b))
 		}
 		if *shard == 0 {
-			res.Sample(map[string]interface{}{"scenario": sc.name, "preemption_bound": b, "max_scheduling_points": rep.MaxPoints})
+			smp := map[string]interface{}{"scenario": sc.name, "preemption_bound": b, "max_scheduling_points": rep.MaxPoints, "executions_in_shard_0": rep.Executions, "distinct_outcomes": len(outcomes)}
+			if sc.choicesOnly {
+				smp["preemption_bound"] = "none: every operation history (explicit choices) on the default schedule"
+			}
+			res.Sample(smp)
 		}
 		for _, f := range rep.Violations {
 			res.Violate(f.V.Class, f.V.Where, fmt.Sprintf("[%s] %s", sc.name, f.V.What), map[string]interface{}{
